@@ -468,8 +468,55 @@ def canon_prod(p_):
     return json.dumps([h, ren(hf), [[x[0], x[1]] + ([ren(x[2])] if x[0] == "V" else []) for x in body]])
 
 
+def vtxt(name, feats):
+    """a category with its features; a name that does not start with a capital needs the explicit marker, which
+    encloses the features too"""
+    if name[:1].isupper():
+        return name + ftxt(feats)
+    return '"VAR:' + name + ftxt(feats) + '"'
+
+
 def body_text(body):
-    return " ".join((x[1] if x[0] == "T" else x[1] + ftxt(x[2])) for x in body) if body else "epsilon"
+    return " ".join((x[1] if x[0] == "T" else vtxt(x[1], x[2])) for x in body) if body else "epsilon"
+
+
+def lower_cats(c):
+    """the same grammar with lower-case category names (everything but the start symbol)"""
+    m = {"A": "np", "B": "vp", "C": "det", "X": "x1", "Y": "y"}
+    c["prods"] = [[m.get(h, h), hf, [[x[0], m.get(x[1], x[1])] + x[2:] if x[0] == "V" else x for x in body]]
+                  for h, hf, body in c["prods"]]
+    return c
+
+
+def with_refs(prods):
+    """the same productions with the (n) reference syntax: a variable that occurs at least twice in ONE flat
+    constituent and nowhere else in its production is written f=(1), g=(1) instead of f=?u, g=?u"""
+    out = []
+    for h, hf, body in prods:
+        groups = [hf] + [x[2] for x in body if x[0] == "V"]
+        def flat_vars(d):
+            return [v for v in d.values() if isinstance(v, str) and v.startswith("?")]
+        def all_vars(d):
+            vs = []
+            for v in d.values():
+                vs += all_vars(v) if isinstance(v, dict) else ([v] if isinstance(v, str) and v.startswith("?") else [])
+            return vs
+        total = {}
+        for g_ in groups:
+            for v in all_vars(g_):
+                total[v] = total.get(v, 0) + 1
+
+        def conv(d):
+            local = {}
+            for v in flat_vars(d):
+                local[v] = local.get(v, 0) + 1
+            ren = {}
+            for v, n in local.items():
+                if n >= 2 and total[v] == n:
+                    ren[v] = "(%d)" % (len(ren) + 1)
+            return {k: (ren.get(v, v) if isinstance(v, str) else v) for k, v in d.items()}
+        out.append([h, conv(hf), [[x[0], x[1]] + ([conv(x[2])] if x[0] == "V" else []) for x in body]])
+    return out
 
 
 def to_text(prods, bars=False):
@@ -478,7 +525,7 @@ def to_text(prods, bars=False):
     lines = []
     heads = []
     for h, hf, body in prods:
-        ht = h + ftxt(hf)
+        ht = vtxt(h, hf)
         if bars and heads and heads[-1] == ht and "?" not in ht and not any(
                 "?" in ftxt(x[2]) for x in body if x[0] == "V"):
             lines[-1] += " | " + body_text(body)
@@ -492,7 +539,7 @@ def build_fcfg(c):
     from pyformlang.fcfg import FCFG, FeatureStructure, FeatureProduction
     from pyformlang.cfg import Variable, Terminal
     if c["via"] == "text":
-        return FCFG.from_text(to_text(c["prods"], bars=c.get("bars", False)))
+        return FCFG.from_text(to_text(with_refs(c["prods"]) if c.get("refs") else c["prods"], bars=c.get("bars", False)))
     prods = set()
     for h, hf, body in c["prods"]:
         variables = {}
@@ -543,6 +590,10 @@ def plan(tier, rng, sl, nslices, stats):
         if i % 10 == 9:
             yield bars_fcfg(rng)
             continue
+        if rng.random() < 0.15:
+            c = lower_cats(c)
+        if c["via"] == "text" and rng.random() < 0.35:
+            c["refs"] = True
         if c["via"] == "text" and rng.random() < 0.4:
             c["bars"] = True
             c["prods"] = sorted(c["prods"], key=lambda p_: (p_[0] + ftxt(p_[1])))     # equal heads next to each other
